@@ -33,6 +33,25 @@ func constInt(v ssa.Value) (int64, bool) {
 	return c.Int64(), true
 }
 
+// contiguousMask: n > 0 has its set bits exactly at positions lo..hi-1 (hi <= 62).
+func contiguousMask(n int64) (lo, hi int, ok bool) {
+	if n <= 0 {
+		return 0, 0, false
+	}
+	for n&1 == 0 {
+		n >>= 1
+		lo++
+	}
+	k, ok := isPow2Minus1(n)
+	if !ok {
+		if n == 1 {
+			return lo, lo + 1, lo+1 <= 62
+		}
+		return 0, 0, false
+	}
+	return lo, lo + k, lo+k <= 62
+}
+
 func isPow2Minus1(n int64) (int, bool) {
 	for k := 1; k < 63; k++ {
 		if n == (int64(1)<<uint(k))-1 {
@@ -129,10 +148,17 @@ func (u *Unit) binop(fr *Frame, st *State, x *ssa.BinOp) Term {
 			if k, ok := isPow2Minus1(n); ok {
 				return App(SInt, "mod", a, BigLit(pow2(k)))
 			}
+			if lo, hi, ok := contiguousMask(n); ok {
+				// bits lo..hi-1 of the two's complement representation, left in place
+				return Mul(App(SInt, "div", App(SInt, "mod", a, BigLit(pow2(hi))), BigLit(pow2(lo))), BigLit(pow2(lo)))
+			}
 		}
 		if n, ok := constInt(x.X); ok {
 			if k, ok := isPow2Minus1(n); ok {
 				return App(SInt, "mod", b, BigLit(pow2(k)))
+			}
+			if lo, hi, ok := contiguousMask(n); ok {
+				return Mul(App(SInt, "div", App(SInt, "mod", b, BigLit(pow2(hi))), BigLit(pow2(lo))), BigLit(pow2(lo)))
 			}
 		}
 	}
